@@ -3,6 +3,7 @@ import gc
 import itertools
 import multiprocessing as mp
 import random
+import signal
 import time
 
 import hv.symx.core  # noqa: F401
@@ -52,7 +53,22 @@ DEEP = {"parens": "(" * 4000 + ")" * 4000, "open-parens": "(" * 4000, "quotes": 
 _TEXTS = None
 
 
+class _NoProgress(BaseException):
+    pass
+
+
+def _alarm(signum, frame):
+    raise _NoProgress()
+
+
 def observe(text):
+    """None when reading `text` ends with models or a LexException; otherwise what happened instead.  "Always terminates": a text of
+    a few characters is read in well under a millisecond, so one that is still being read after 10 s (60 s for texts over 1000
+    characters) is reported as not terminating - with the text, so that it can be replayed."""
+    limit = 10 if len(text) <= 1000 else 60
+    if signal.getsignal(signal.SIGALRM) is not _alarm:
+        signal.signal(signal.SIGALRM, _alarm)
+    signal.setitimer(signal.ITIMER_REAL, limit)
     try:
         n = 0
         for _ in hy.read_many(text):
@@ -62,8 +78,12 @@ def observe(text):
         return None
     except LexException:
         return None
+    except _NoProgress:
+        return f"no result after {limit} s: reading does not terminate (or is slower by four orders of magnitude)"
     except BaseException as e:  # noqa: BLE001
         return "%s: %s" % (type(e).__name__, str(e)[:120])
+    finally:
+        signal.setitimer(signal.ITIMER_REAL, 0)
 
 
 def _gen(spec):
@@ -103,6 +123,8 @@ def _work(spec):
         r = observe(text)
         if r is not None and bad is None:
             bad = (text if len(text) < 300 else text[:120] + "..." + text[-60:], r)
+        if r is not None and r.startswith("no result after"):
+            break               # every further text of this family that hangs would cost the full time limit again
     return spec[0], n, bad, time.time() - t0
 
 
